@@ -777,6 +777,7 @@ func checkC11(P *Prog, r *Result) {
 	P.checkPrecedence(r)
 	P.checkParamPresence(r)
 	P.checkIssuesBuiltByContext(r)
+	P.checkCtxValueStore(r, "C11/ctx-value-last-set-wins")
 	_ = R
 }
 
@@ -1549,4 +1550,103 @@ func (P *Prog) checkIssuesBuiltByContext(r *Result) {
 		})
 	}
 	r.floor("C11/issues-built-by-context", 10)
+}
+
+// checkCtxValueStore: "the language named in this execution's context" is the value the *last* WithCtxValue for that
+// key stored. The execution context keeps its values in one map; the rule demands the two halves of that: the setter
+// (the *ExecCtx method taking a string key and a value) performs `m[key] = val` on every path, and every return of the
+// getter (string key -> any) is the lookup `m[key]` in the same field - or a nil constant behind a test of that map or
+// of the lookup's ok. A second place a value may live in (an inline first pair, a cache of the last lookup) has its own
+// precedence, and that precedence is what goes wrong.
+func (P *Prog) checkCtxValueStore(r *Result, rule string) {
+	R := P.roles
+	var setter, getter *ssa.Function
+	for _, fn := range P.Funcs {
+		if fn.Parent() != nil || fn.Signature.Recv() == nil || !P.isPtrTo(fn.Signature.Recv().Type(), R.ExecCtx) || fn.Blocks == nil {
+			continue
+		}
+		ps, rs := fn.Signature.Params(), fn.Signature.Results()
+		isStr := func(t types.Type) bool {
+			b, ok := t.Underlying().(*types.Basic)
+			return ok && b.Kind() == types.String
+		}
+		switch {
+		case ps.Len() == 2 && rs.Len() == 0 && isStr(ps.At(0).Type()) && types.IsInterface(ps.At(1).Type()):
+			setter = fn
+		case ps.Len() == 1 && rs.Len() == 1 && isStr(ps.At(0).Type()) && types.IsInterface(rs.At(0).Type()):
+			getter = fn
+		}
+	}
+	if setter == nil || getter == nil {
+		r.undecided(rule, "ExecCtx value store", "-", "the setter (string, any) / getter (string) any of the execution context were not found")
+		return
+	}
+	r.sawFunc(fname(setter))
+	r.sawFunc(fname(getter))
+	// setter: a MapUpdate(recv.F, key, val) whose block every return is dominated by
+	var mapField *types.Var
+	okSet := false
+	eachInstr(setter, func(b *ssa.BasicBlock, _ int, in ssa.Instruction) {
+		mu, ok := in.(*ssa.MapUpdate)
+		if !ok || cv(mu.Key) != ssa.Value(setter.Params[1]) || cv(mu.Value) != ssa.Value(setter.Params[2]) {
+			return
+		}
+		base, f := loadOfField(cv(mu.Map))
+		if f == nil || cv(base) != ssa.Value(setter.Params[0]) {
+			return
+		}
+		all := true
+		for _, rb := range setter.Blocks {
+			if len(rb.Instrs) > 0 {
+				if _, isRet := rb.Instrs[len(rb.Instrs)-1].(*ssa.Return); isRet && rb != b && !b.Dominates(rb) {
+					all = false
+				}
+			}
+		}
+		if all {
+			okSet, mapField = true, f
+		}
+	})
+	if !okSet {
+		r.bad(rule, fname(setter), P.pos(setter.Pos()), "some path through the setter does not store the value under its key in the context's map: a value set for a key can be shadowed by, or hidden behind, one set earlier (the last WithCtxValue for a key must win)")
+	} else {
+		r.ok(rule, fname(setter), P.pos(setter.Pos()), "m[key] = val on every path")
+	}
+	var problems []string
+	eachInstr(getter, func(b *ssa.BasicBlock, _ int, in ssa.Instruction) {
+		rt, ok := in.(*ssa.Return)
+		if !ok || len(rt.Results) != 1 {
+			return
+		}
+		v := cv(rt.Results[0])
+		if ex, isEx := v.(*ssa.Extract); isEx && ex.Index == 0 {
+			v = ex.Tuple
+		}
+		if lk, isLk := v.(*ssa.Lookup); isLk {
+			base, f := loadOfField(cv(lk.X))
+			if f != nil && cv(base) == ssa.Value(getter.Params[0]) && cv(lk.Index) == ssa.Value(getter.Params[1]) && (mapField == nil || sameField(f, mapField)) {
+				return
+			}
+		}
+		if isNilConst(v) {
+			for _, gd := range guardsOf(b) {
+				if x, _, isN := isNilCompare(gd.If.Cond); isN {
+					if _, f := loadOfField(cv(x)); f != nil && (mapField == nil || sameField(f, mapField)) {
+						return
+					}
+				}
+				if ex, isEx := gd.If.Cond.(*ssa.Extract); isEx && ex.Index == 1 {
+					if _, isLk := ex.Tuple.(*ssa.Lookup); isLk {
+						return
+					}
+				}
+			}
+		}
+		problems = append(problems, "a return at "+P.ipos(in)+" is not the lookup of the key in the context's map")
+	})
+	if len(problems) > 0 {
+		r.bad(rule, fname(getter), P.pos(getter.Pos()), strings.Join(uniqSorted(problems), "; ")+": the value read for a key may be one that a later WithCtxValue for the same key replaced")
+	} else {
+		r.ok(rule, fname(getter), P.pos(getter.Pos()), "every return is m[key]")
+	}
 }
